@@ -367,6 +367,22 @@ def execute(spec, world):
                             "by %s" % (name, t.tolist(), c_pre.tolist(), shift[0].tolist()), si,
                             cls=tcls, prop=prop, what="wrong-vector"))
                         break
+                # ... and the shape's centroid is then where it was put (the object's own
+                # report; since fix 27e122d that holds for clockwise polygons too)
+                try:
+                    with world.step(st["pyseed"], st["npseed"], use_fs=False):
+                        with warnings.catch_warnings():
+                            warnings.simplefilter("ignore")
+                            got = np.array(tgt.centroid, dtype=float)
+                except Exception:  # noqa: BLE001 - unreadable in this state: nothing to compare
+                    got = None
+                if got is not None and got.shape == t.shape and float(
+                        np.max(np.abs(got - t))) > 1e-7 * (L + float(np.max(np.abs(t)))):
+                    res["violations"].append(violation(
+                        PROP, "translation", "%s = %s, afterwards the centroid reads %s" % (
+                            name, t.tolist(), got.tolist()), si, cls=tcls, prop=prop,
+                        what="target-missed"))
+                    break
             else:
                 got = np.asarray(tgt.centroid, float)
                 if got.shape != t.shape or not np.allclose(got, t, rtol=1e-12, atol=0):
